@@ -1193,3 +1193,61 @@ var _ = late(func() {
 		Clause: "the context MapStream derives for its goroutines is cancelled only by mapStream.Close (the errgroup cancels its own child context when a goroutine RETURNS an error): a goroutine that calls cancel() itself before returning its error lets its siblings fail with context.Canceled first, and the errgroup - hence Next - reports the library's own cancellation instead of the source's or f's error",
 		Run:    func(c *Ctx, r *R) { ruleWhoMayCancel(c, r, "parallel.MapStream", "mapStream", "cancel", false) }})
 })
+
+var _ = late(func() {
+	properties["C01"].Rules = append(properties["C01"].Rules, &Rule{ID: "C01.split-halves", Floor: 3,
+		Clause: "same rule as C03.split-halves: a split leaves both halves within [minKVs, maxKVs], accounts for every entry, and rewrites the left half (which IS the node being split, read through the amalgam view) from the highest index down - rewriting it upwards duplicates entries and drops others, so keys that were put are no longer found",
+		Run:    ruleTreeSplit})
+})
+
+// gen-width (C02, C15, C20): a generation counter is only compared for equality, so it must not wrap within any realistic
+// history: a counter narrower than 32 bits returns to the value an iterator recorded after 256 / 65536 modifications, and the
+// "nothing changed" fast path then skips the position check.
+func ruleGenWidth(fields ...[3]string) func(c *Ctx, r *R) {
+	return func(c *Ctx, r *R) {
+		for _, f := range fields {
+			rel, typ, fld := f[0], f[1], f[2]
+			tn := c.lookupType(rel, typ)
+			if tn == nil {
+				r.undecided(rel+"."+typ+"|missing", token.NoPos, "type not found")
+				continue
+			}
+			st, ok := tn.Type().Underlying().(*types.Struct)
+			if !ok {
+				continue
+			}
+			found := false
+			for i := 0; i < st.NumFields(); i++ {
+				sf := st.Field(i)
+				if canonField(tn.Type(), sf.Name()) != fld {
+					continue
+				}
+				found = true
+				bt, isBasic := sf.Type().Underlying().(*types.Basic)
+				wide := false
+				if isBasic {
+					switch bt.Kind() {
+					case types.Int, types.Uint, types.Int32, types.Uint32, types.Int64, types.Uint64, types.Uintptr:
+						wide = true
+					}
+				}
+				r.ok(wide, rel+"."+typ+"."+fld+"|width", sf.Pos(), "the generation counter "+typ+"."+fld+" has type "+sf.Type().String()+": it is only compared for equality, so after 2^bits modifications between two looks it reads as unchanged and the staleness check is skipped; it must be at least 32 bits wide")
+			}
+			if !found {
+				r.undecided(rel+"."+typ+"."+fld+"|missing", tn.Pos(), "generation field not found")
+			}
+		}
+	}
+}
+
+var _ = late(func() {
+	properties["C02"].Rules = append(properties["C02"].Rules, &Rule{ID: "C02.gen-width", Floor: 2,
+		Clause: "btree.gen and cursor.gen are integers of at least 32 bits: the counter is compared for equality only, a narrow one wraps back to the value a parked iterator recorded and the iterator then trusts a slot that has shifted",
+		Run:    ruleGenWidth([3]string{treeRel, "btree", "gen"}, [3]string{treeRel, "cursor", "gen"})})
+	properties["C15"].Rules = append(properties["C15"].Rules, &Rule{ID: "C15.gen-width", Floor: 4,
+		Clause: "the generation counters of Deque / dequeIterator and of internal/heap.Heap / heapIterator are integers of at least 32 bits (a narrow counter wraps and a modified container looks unmodified)",
+		Run:    ruleGenWidth([3]string{"container/deque", "Deque", "gen"}, [3]string{"container/deque", "dequeIterator", "gen"}, [3]string{"internal/heap", "Heap", "gen"}, [3]string{"internal/heap", "heapIterator", "gen"})})
+	properties["C20"].Rules = append(properties["C20"].Rules, &Rule{ID: "C20.gen-width", Floor: 1,
+		Clause: "JitterTicker's generation counter is an integer of at least 32 bits (a callback of a timer armed 2^bits Resets ago would otherwise pass the generation test)",
+		Run:    ruleGenWidth([3]string{"xtime", "JitterTicker", "gen"})})
+})
